@@ -22,6 +22,13 @@ int       v_mutex_initialised, v_mutex_recursive, v_once_done;
 int       v_lock_calls, v_unlock_calls;
 int       v_child_mode;
 
+#ifdef VL_BOUNDARY_HOOK
+void v_boundary(void);            /* harness: a point at which the thread under test can be stopped (C10 fork points) */
+#define V_BOUNDARY() v_boundary()
+#else
+#define V_BOUNDARY() do { } while (0)
+#endif
+
 pthread_t pthread_self(void) { return v_self; }
 int pthread_equal(pthread_t a, pthread_t b) { return a == b; }
 
@@ -44,6 +51,7 @@ int pthread_mutex_init(pthread_mutex_t *m, const pthread_mutexattr_t *a)
 int pthread_mutex_lock(pthread_mutex_t *m)
 {
     (void)m;
+    V_BOUNDARY();                      /* stopped just before taking the lock */
     v_lock_calls++;
     V_ASSERT(v_mutex_initialised, "C09: mutex used before initialisation");
     if (v_mutex_owner != 0 && v_mutex_owner != v_self) {
@@ -59,12 +67,14 @@ int pthread_mutex_lock(pthread_mutex_t *m)
     }
     v_interference();                 /* others may have run since we last held the lock */
     v_mutex_owner = v_self; v_mutex_depth = 1;
+    V_BOUNDARY();                      /* stopped inside the critical section */
     return 0;
 }
 
 int pthread_mutex_unlock(pthread_mutex_t *m)
 {
     (void)m;
+    V_BOUNDARY();                      /* stopped inside the critical section, about to leave it */
     v_unlock_calls++;
     V_ASSERT(v_mutex_owner == v_self && v_mutex_depth > 0, "C09: unlock of a mutex the caller does not hold");
     if (v_mutex_owner == v_self && v_mutex_depth > 0) { v_mutex_depth--; if (v_mutex_depth == 0) v_mutex_owner = 0; }
